@@ -1578,6 +1578,11 @@ def rewrite_is_reported(prog, rep, R):
 
 
 def check_c11(prog, rep, tier, cfg):
+    # C11.g — the widths the wrapper compares with wrap_column are the widths that are emitted: every pass that can replace a token's
+    # text is registered before the wrapping pass (shared with C03.c)
+    import c03 as _c03
+    from engine import AliasReport as _AR
+    _c03.c03c(prog, _AR(rep, [("C03.c", r".", "C11.g")]))
     R = "C11.a"
     inventory(rep, R, "readers of FormattingConfig.wrap_column", readers(prog, FC, "wrap_column"), [CONV_OLF, DOCS, "pasfmt::FormattingConfig::max_line_length"] + SERDE, "wrap_column reaches core only as max_line_length")
     cv = prog.body(CONV_OLF)
